@@ -54,6 +54,7 @@ import Tie.Excerpt
 #print axioms Sourcer.C16_metadata
 #print axioms Sourcer.C16_copy_keeps_metadata
 #print axioms Sourcer.C16_leaves_and_lists
+#print axioms Sourcer.C11_context_table_identity
 #print axioms Tie.implFlags_sound -- module Tie.Flags
 #print axioms Tie.impl_refines -- module Tie.Flags
 #print axioms Tie.map_index_eq -- module Tie.Excerpt
